@@ -8,6 +8,10 @@ t = json.load(open('/tmp/seed/triage.json'))
 head = subprocess.check_output(['git', '-C', '/repo', 'rev-parse', '--short', 'HEAD']).decode().strip()
 out = Path('/verif/seeded'); out.mkdir(exist_ok=True)
 rows = []
+try:
+    base2 = {(x['property'], x['seed']): x for x in json.load(open('/tmp/seed/triage_r2_baseline.json'))}
+except Exception:
+    base2 = {}
 verified_first_run = {"C02", "C04", "C06", "C07", "C14", "C15", "C16", "C18", "C19", "C20"}
 for r in sorted(t, key=lambda x: (x['property'], x.get('round', 1), x['seed'])):
     sid = f"{r['property']}-{r['seed']}"
@@ -39,15 +43,22 @@ for r in sorted(t, key=lambda x: (x['property'], x.get('round', 1), x['seed'])):
         "detected_by": fl,
         "detected_by_own_property_check": r['property'] in fl,
     }
+    b = base2.get((r['property'], r['seed']))
+    if b is not None:
+        # the checker as committed before this round's seeds were looked at (git 636bf70): the generalisation baseline
+        meta["detected_before_strengthening"] = {"checker_commit": "636bf70", "detected_by": sorted(b.get('flagged', {})), "own_property_check": r['property'] in b.get('flagged', {})}
     json.dump(meta, open(d / 'meta.json', 'w'), indent=1)
     rules = sorted({l.split('rule=')[1].split()[0] for ls in fl.values() for l in ls})
-    rows.append((sid, r['property'] in fl, ",".join(sorted(fl)), ",".join(rules), (r['meta'].get('summary') or '')[:140].replace('|', '/').replace('\n', ' ')))
-md = ["| seed | own check | reported by | rule(s) | change |", "|---|---|---|---|---|"]
-for sid, own, props, rules, summ in rows:
-    md.append(f"| {sid} | {'**yes**' if own else 'no'} | {props or '—'} | {rules or '—'} | {summ} |")
+    rows.append((sid, r['property'] in fl, ",".join(sorted(fl)), ",".join(rules), (r['meta'].get('summary') or '')[:140].replace('|', '/').replace('\n', ' '),
+                 None if b is None else (r['property'] in b.get('flagged', {}))))
+md = ["| seed | own check | before strengthening | reported by | rule(s) | change |", "|---|---|---|---|---|---|"]
+for sid, own, props, rules, summ, before in rows:
+    md.append(f"| {sid} | {'**yes**' if own else 'no'} | {'' if before is None else ('yes' if before else 'no')} | {props or '—'} | {rules or '—'} | {summ} |")
 caught = sum(1 for r in rows if r[1])
+r2 = [r for r in rows if r[5] is not None]
 summary = (f"**{caught} of {len(rows)}** seeded changes are reported (exit 1, VIOLATION naming the construct) by the check of the property they were "
-           f"written against; {sum(1 for r in rows if r[2])} by some check; {len(rows) - sum(1 for r in rows if r[2])} by none.\n\n" + "\n".join(md))
+           f"written against; {sum(1 for r in rows if r[2])} by some check; {len(rows) - sum(1 for r in rows if r[2])} by none.  "
+           f"Of the {len(r2)} round-2 seeds, {sum(1 for r in r2 if r[5])} were reported by the checker as it stood before that round (column 'before strengthening').\n\n" + "\n".join(md))
 open(out / 'SUMMARY.md', 'w').write("# Seeded changes\n\n" + summary + "\n")
 dp = Path('/verif/DESIGN.md'); s = dp.read_text()
 if "SEEDED-TABLE-PLACEHOLDER" in s:
